@@ -123,7 +123,7 @@ func (h *harness) genCases() []tcase {
 		default:
 			src = gzipOf(data, lv)
 		}
-		add(tcase{codec: codec, label: fmt.Sprintf("go-flate n=%d level=%d kind=%d", n, lv, i%5), src: src, srcchunk: chunkOf(len(src)), dstcap: dstOf()})
+		add(tcase{codec: codec, label: fmt.Sprintf("go-flate n=%d level=%d kind=%d", n, lv, i%6), src: src, srcchunk: chunkOf(len(src)), dstcap: dstOf()})
 	}
 	for i := 0; i < 8*mult; i++ {
 		n := sizeLadder[rd.Intn(len(sizeLadder))]
